@@ -1433,6 +1433,39 @@ fn fam_listidx(_func: Option<&str>, only: Option<u64>) {
             }
         }
     }
+    // unions of two tuple types (two atoms in the diagram: the walk over the diagram): (A | B)[K] = A[K] | B[K]
+    let small: Vec<(Vec<usize>, Option<usize>)> = shapes.iter().filter(|(p, _)| p.len() <= 2).cloned().collect();
+    for (n1, (pre1, rest1)) in small.iter().enumerate() { for (pre2, rest2) in small.iter().skip(n1 + 1) {
+        for ix in index_sets.iter().filter(|ix| ix.iter().all(|i| *i <= 2)) { for allowed in [true, false] {
+            if !rep.want() { continue; }
+            let mut ctx = SemTypeContext::new();
+            let mk = |ctx: &mut SemTypeContext, pre: &Vec<usize>, rest: &Option<usize>| Rc::new(ctx.tuple(pre.iter().map(|b| Rc::new(SemType::new_basic(basics[*b].code()))).collect(), rest.map(|b| Rc::new(SemType::new_basic(basics[b].code())))));
+            let t1 = mk(&mut ctx, pre1, rest1);
+            let t2 = mk(&mut ctx, pre2, rest2);
+            let t = match t1.union(&t2) { Ok(t) => t, Err(_) => continue };
+            let sel = |pre: &Vec<usize>, rest: &Option<usize>| -> u32 {
+                let mut bits = 0u32;
+                if allowed {
+                    for i in ix { let i = *i as usize; if i < pre.len() { bits |= basics[pre[i]].code(); } else if let Some(r) = rest { bits |= basics[*r].code(); } }
+                } else {
+                    for i in 0..pre.len() { if !ix.contains(&(i as i64)) { bits |= basics[pre[i]].code(); } }
+                    if let Some(r) = rest { bits |= basics[*r].code(); }
+                }
+                bits
+            };
+            let expected = Rc::new(SemType::new_basic(sel(pre1, rest1) | sel(pre2, rest2)));
+            let idx_t = Rc::new(SemType::new_complex(0, vec![Rc::new(ProperSubtype::Number { allowed, values: ix.iter().map(|i| num(*i)).collect() })]));
+            let descr = format!("union of tuples ({:?}, {:?}) | ({:?}, {:?}) over [string, number, boolean], indexed by {}{:?}", pre1, rest1, pre2, rest2, if allowed { "" } else { "number except " }, ix);
+            match ctx.indexed_access(t, idx_t) {
+                Ok(r) => match r.is_same_type(&expected, &mut ctx) {
+                    Ok(true) => {}
+                    Ok(false) => rep.fail(descr, format!("indexed access = {:?}", r), format!("{:?} (the union of the two member types)", expected)),
+                    Err(e) => rep.fail(descr, format!("is_same_type Err({})", e), "true".into()),
+                },
+                Err(_) => {}
+            }
+        } }
+    } }
     rep.print();
 }
 
